@@ -24,6 +24,10 @@ def linear(g, rd, f, idx, ctx, depth=0):
         return {'1': n['v']} if n['v'] else {}
     if k == 'cast':
         return linear(g, rd, f, n['e'], ctx, depth + 1)
+    if k == 'initlist' and len(n.get('ch', [])) == 1:
+        return linear(g, rd, f, n['ch'][0], ctx, depth + 1)
+    if k == 'construct' and n.get('copymove') and len(n.get('args', [])) == 1:
+        return linear(g, rd, f, n['args'][0], ctx, depth + 1)
     if k == 'call' and is_transparent_call(n) and n.get('args'):
         return linear(g, rd, f, n['args'][0], ctx, depth + 1)
     if k == 'binop' and n['op'] in ('+', '-'):
